@@ -98,4 +98,7 @@ run C14 && mut C14 x/fixationstore/types/fixationstore.go '		latestEntry.IsLates
 	}
 
 	// we are now the latest entry'
+run C10 && mut C10 x/dualstaking/keeper/delegator_reward.go '		k.RemoveDelegatorReward(ctx, reward.Provider, delegator)
+' ''
+run C10 && mut C10 x/dualstaking/keeper/delegator_reward.go '	fullProviderReward := providerReward.Add(leftoverRewards...)' '	fullProviderReward := providerReward.Add(leftoverRewards...).Add(leftoverRewards...)'
 exit 0
